@@ -29,6 +29,7 @@ inductive Stmt
   | raise_                     -- explicit `raise`
   | ret                        -- `return`
   | unknown                    -- construct the translator does not understand (worst case)
+  | callT                      -- `self.<m>(…)` where `<m>` is itself one of the thread-limiting functions of the list
   | seq (a b : Stmt)
   | br (a b : Stmt)            -- `if`: either branch
   | tryFin (body fin : Stmt)
@@ -49,6 +50,11 @@ def exec : Stmt → TS → List (Exit × TS)
   | raise_, s => [(raised, s)]
   | ret, s => [(returned, s)]
   | unknown, s => [(normal, ⟨true, none⟩), (raised, ⟨true, none⟩), (returned, ⟨true, none⟩)]
+  -- the callee is one of the skeletons (each is obliged to be `safe`): whatever its exit, the count is what it was at
+  -- ITS entry, but its own `getT` has overwritten the shared attribute `self._original_num_threads` with that count
+  -- (unless it left before reaching it)
+  | callT, s =>
+    [(normal, { s with saved := some s.changed }), (normal, s), (raised, { s with saved := some s.changed }), (raised, s)]
   | seq a b, s =>
     ((exec a s).flatMap (fun r => if r.1 = normal then exec b r.2 else [r])).eraseDups
   | br a b, s => (exec a s ++ exec b s).eraseDups
